@@ -453,11 +453,19 @@ def run_case(ctx, case):
             m = numpy.ma.getmaskarray(a)
             if how == "F":
                 d2, m2 = numpy.asfortranarray(d), numpy.asfortranarray(m)
+            elif how.startswith("axes"):
+                # the same cells stored with two axes swapped: neither row-major nor column-major
+                ax = {"axes102": (1, 0, 2), "axes021": (0, 2, 1)}[how] + tuple(range(3, d.ndim))
+                inv = tuple(numpy.argsort(ax))
+                d2 = numpy.ascontiguousarray(d.transpose(ax)).transpose(inv)
+                m2 = numpy.ascontiguousarray(m.transpose(ax)).transpose(inv)
             else:
                 d2 = numpy.ascontiguousarray(d.T).T
                 m2 = numpy.ascontiguousarray(m.T).T
             return numpy.ma.array(d2, mask=m2) if a.mask is not numpy.ma.nomask else numpy.ma.array(d2)
         how = "F" if sum(case["perm"][:3]) % 2 == 0 else "T-view"
+        if len(shape) >= 3 and sum(case["perm"][:5]) % 3 != 0:
+            how = ["axes102", "axes021"][sum(case["perm"][:4]) % 2]
         lin = [relaid(a, how) for a in inputs]
         lout, _ = run(cmd, lin, params, fuzzy_inputs=fuzzy_in)
         ctx.count("layout_checks")
